@@ -796,6 +796,49 @@ def run_rand_sample(ctx: Ctx) -> None:
             _guard(ctx, "T16.rand-sample", f"{what}:replacement={repl}", fR, f"rand_sample mask={what} replacement={repl}", th)
 
 
+def run_sample_mask(ctx: Ctx) -> None:
+    """The mask a patch-wise loss hands on: sampled from the binarised input mask, whatever its dtype."""
+    prog = ctx.prog
+    fG = prog.func("deepali.core.image", "grid_sample_mask")
+    ctx.fn(fG)
+    ctx.fn(prog.func("deepali.losses.image", "PatchwiseImageLoss.forward"))
+    ctx.rule("T16.sample-mask", "grid_sample_mask(mask, grid, threshold) (used by PatchwiseImageLoss for its mask): the tensor interpolated by "
+                                "torch.grid_sample is the indicator of mask > threshold — a sample whose mask value is zero stays masked out (with the "
+                                "default threshold a 0/1 mask is itself) — identically for float, integer and bool masks, with zero padding and "
+                                "linear interpolation; sampled at its own lattice the mask comes back unchanged")
+    from .t11_expv import identity_coords
+    shape = (2, 3)
+    for ac in (True, False):
+        def th(ac=ac):
+            reset_relations()
+            fresh_facts()
+            it = make_interp(ctx)
+            grid = identity_coords(shape, ac).reshape([1] + list(shape) + [2])
+            cases = [("float 0/1", [0, 1, 1, 0, 1, 0], symt.FLOAT, {}, [0, 1, 1, 0, 1, 0]),
+                     ("int64 0/1", [0, 1, 1, 0, 1, 0], symt.INT, {}, [0, 1, 1, 0, 1, 0]),
+                     ("bool", [False, True, True, False, True, False], symt.BOOL, {}, [0, 1, 1, 0, 1, 0]),
+                     ("float weights", [0, Fraction(1, 2), 2, 0, Fraction(1, 4), 0], symt.FLOAT, {}, [0, 1, 1, 0, 1, 0]),
+                     ("float weights, threshold 1/3", [0, Fraction(1, 2), 2, 0, Fraction(1, 4), 0], symt.FLOAT, {"threshold": Fraction(1, 3)}, [0, 1, 1, 0, 0, 0])]
+            for what, vals, dt, kw, want in cases:
+                m = STensor.from_flat(vals, [1, 1] + list(shape), dt)
+                del symt.GRID_SAMPLE_CALLS[:]
+                r = it.call(fG, m, grid, align_corners=ac, **kw)
+                calls = list(symt.GRID_SAMPLE_CALLS)
+                if len(calls) != 1:
+                    return False, f"{len(calls)} torch.grid_sample calls"
+                c = calls[0]
+                got = [to_rat(int(v) if isinstance(v, bool) else v) for v in c["input"].flat()]
+                if len(got) != 6 or any(not g.equals(Rat.of(w)) for g, w in zip(got, want)):
+                    return False, (f"{what} mask {vals}: the interpolated tensor is {[str(g) for g in got]}, expected the indicator {want} of mask > "
+                                   f"{kw.get('threshold', 0)} (a zero of the mask must stay masked out)")
+                if str(c["padding_mode"]).lower().find("zero") < 0 or bool(c["align_corners"]) != ac:
+                    return False, f"{what}: sampled with padding {c['padding_mode']} / align_corners={c['align_corners']}"
+                if not teq(r.reshape([6]), STensor.from_flat(want, [6])):
+                    return False, f"{what}: sampled at its own lattice the mask is {tstr(r)[:60]}, expected {want}"
+            return True, ""
+        _guard(ctx, "T16.sample-mask", f"align_corners={ac}", fG, f"grid_sample_mask align_corners={ac}", th)
+
+
 def run_wlcc(ctx: Ctx) -> None:
     """Weighted local correlation (wlcc_loss / WLCC): symmetry, repeatability with reused mask tensors, reductions, reduction to lcc."""
     prog = ctx.prog
